@@ -67,6 +67,32 @@ impl<R: BufRead> Iterator for PacketParser<R> {
     }
 }
 
+/// Passes reads through and remembers whether the underlying reader itself reported an error.
+struct TrackErrors<'a, R> {
+    inner: &'a mut R,
+    failed: bool,
+}
+
+impl<R: BufRead> std::io::Read for TrackErrors<'_, R> {
+    fn read(&mut self, buf: &mut [u8]) -> std::io::Result<usize> {
+        let res = self.inner.read(buf);
+        self.failed |= res.is_err();
+        res
+    }
+}
+
+impl<R: BufRead> BufRead for TrackErrors<'_, R> {
+    fn fill_buf(&mut self) -> std::io::Result<&[u8]> {
+        let res = self.inner.fill_buf();
+        self.failed |= res.is_err();
+        res
+    }
+
+    fn consume(&mut self, amt: usize) {
+        self.inner.consume(amt)
+    }
+}
+
 impl<R: BufRead> PacketParser<R> {
     pub fn next_ref(&mut self) -> Option<Result<PacketBodyReader<&'_ mut R>>> {
         if self.is_done {
@@ -79,10 +105,16 @@ impl<R: BufRead> PacketParser<R> {
             return Some(Err(err.into()));
         }
 
-        let header = match PacketHeader::try_from_reader(&mut self.reader) {
+        let mut tracked = TrackErrors {
+            inner: &mut self.reader,
+            failed: false,
+        };
+        let header = match PacketHeader::try_from_reader(&mut tracked) {
             Ok(header) => header,
             Err(err) => {
-                if err.kind() == std::io::ErrorKind::UnexpectedEof {
+                // Input that ends inside a header ends the packet stream; an error raised by
+                // the underlying reader (whatever its kind) does not.
+                if err.kind() == std::io::ErrorKind::UnexpectedEof && !tracked.failed {
                     return None;
                 }
 
